@@ -299,12 +299,16 @@ static const char* alg_name[] = {"copy_pixels(any,any)", "copy_pixels(any,view)"
                                  "copy_and_convert_pixels(any,any,cc)", "equal_pixels(any,any)", "equal_pixels(any,view)", "equal_pixels(view,any)", "fill_pixels(any,pixel)", "for_each_pixel(any,f)",
                                  "resample_pixels(any,any)", "resample_pixels(any,view)", "resample_pixels(view,any)"};
 
-struct Halver // a generic pixel functor that also counts its calls
+struct Halver // a generic pixel functor that counts its calls, in the caller's counter and in its own state (the algorithm returns the functor)
 {
     long* calls;
-    template <class P> void operator()(P&& p) const
+    long own = 0;
+    double sum = 0;
+    template <class P> void operator()(P&& p)
     {
         ++*calls;
+        ++own;
+        sum += get_ch(p, 0);
         set_ch(p, 0, std::floor(get_ch(p, 0) / 2));
     }
 };
@@ -474,8 +478,9 @@ static void run_pair_impl(Case const& c, int const* cls_s, int const* cls_d)
             {
                 long n1 = 0, n2 = 0;
                 Halver f = gil::for_each_pixel(dv, Halver{&n1});
-                gil::for_each_pixel(cdv, Halver{&n2});
+                Halver fc = gil::for_each_pixel(cdv, Halver{&n2});
                 VCHECK(n1 == n2 && n1 == static_cast<long>(w * h) && f.calls == &n1, what, ": functor called ", n1, " times for ", w * h, " pixels");
+                VCHECK(f.own == fc.own && f.sum == fc.sum && f.own == static_cast<long>(w * h), what, ": the returned functor has seen ", f.own, " pixels (sum ", f.sum, "), the concrete algorithm returns one that has seen ", fc.own, " (sum ", fc.sum, ")");
                 expect_like_twin();
                 break;
             }
